@@ -45,8 +45,12 @@ func H_C10_atomic() {
 		vDisk[target] = &vEnt{exists: true, old: true}
 	}
 	c := vWriterCache("/vfs/etc", dir)
+	vFaulted = false
 	err := c.WriteSpec(vValidRaw("vendor.com/class"), names[k])
 	vObserve()
+	if !vFaulted {
+		vassert("write-succeeds-when-nothing-fails", err == nil)
+	}
 	// at every instant (after every file-system operation, i.e. at every crash point and for every concurrent reader)
 	// a Spec-named file held either the complete previous or the complete new content
 	vassert("never-partial-under-a-spec-name", vInvOK)
@@ -136,7 +140,12 @@ func H_C16_effects() {
 		}
 	}
 	vJSONCalls, vYAMLCalls = 0, 0
+	vFaulted = false
 	err := c.WriteSpec(rawSpec, name)
+	if !vFaulted {
+		// no operation failed: the write succeeds, the last directory being created if it was missing
+		vassert("write-succeeds-when-nothing-fails", err == nil)
+	}
 	if err == nil {
 		vreach("written")
 		e, ok := vDisk[target]
